@@ -1,58 +1,55 @@
 (** C15 — facts about the objects regenerated from the source (Gen/VtfLayout_gen.v) that are not closed
-    boolean computations: the offset formulas and the four scale_down strides, as functions of their arguments.
-    If an edit of vtf.py / _py_vtf_readwrite.py changes what these compute, this file stops compiling. *)
+    boolean computations: the offset formulas and the four scale_down strides, as FUNCTIONS of their arguments.
+    Round 5: the two facts are stated here as propositions ([pixel_offsets_spec], [scale_strides_spec]) and are premises of
+    the theorems below; they are proved (ring / lia) in two files of their own,
+    Fmt/VtfGenPixelOffsetIs4TimesYWidthPlusX.v and Fmt/VtfGenScaleDownStridesSelectThe2x2ParentBlock.v, which the check
+    compiles as two named obligations.  An edit of vtf.py / _py_vtf_readwrite.py that changes what the formulas compute
+    therefore falsifies ONE named obligation (the premise is false for the faulty code) instead of stopping the whole build. *)
 From Coq Require Import ZArith List Bool Lia.
 From SV Require Import Fmt.VtfLayout Fmt.VtfLayoutProofs Gen.VtfLayout_gen.
 Import ListNotations.
 Open Scope Z_scope.
 
-Lemma gen_getitem_off_spec : forall x y w h, getitem_off x y w h = pixel_off x y w.
-Proof. intros. unfold getitem_off, pixel_off. ring. Qed.
-Lemma gen_setitem_off_spec : forall x y w h, setitem_off x y w h = pixel_off x y w.
-Proof. intros. unfold setitem_off, pixel_off. ring. Qed.
-
-Lemma gen_dst_off_spec : forall w x y, gen_dst_off w x y = texel_off w x y.
-Proof. intros. unfold gen_dst_off, texel_off. ring. Qed.
-Lemma gen_src_off2_spec : forall pr pc x y, gen_src_off2 pr pc x y = 4 * (pr * y + pc * x).
-Proof. intros. unfold gen_src_off2. ring. Qed.
-
-Lemma gen_scale_spec : scale_spec gen_scalecfg.
-Proof.
-  intros sw sh w h Hs. cbn [horiz_off per_column vert_off per_row gen_scalecfg].
-  unfold gen_per_row, gen_vert_off, gen_per_column, gen_horiz_off.
-  destruct (Z.eqb_spec w sw), (Z.eqb_spec h sh); cbn [negb]; repeat split; lia.
-Qed.
+(** frame[x, y] and frame[x, y] = p address byte 4 * (y * width + x) *)
+Definition pixel_offsets_spec : Prop :=
+  (forall x y w h, getitem_off x y w h = pixel_off x y w) /\ (forall x y w h, setitem_off x y w h = pixel_off x y w).
+(** scale_down: destination texel offset, source offset formula, and the four strides (horizontal / vertical step to the
+    neighbour inside the 2x2 block, source columns / rows per destination column / row) *)
+Definition scale_strides_spec : Prop :=
+  (forall w x y, gen_dst_off w x y = texel_off w x y)
+  /\ (forall pr pc x y, gen_src_off2 pr pc x y = 4 * (pr * y + pc * x))
+  /\ scale_spec gen_scalecfg.
 
 (** Pixel access: with all four rejections present, the bytes touched by an accepted access are inside the buffer. *)
-Lemma gen_getitem_in_bounds : bounds_ok getitem_reject = true -> Z.leb getitem_span 4 = true ->
+Lemma gen_getitem_in_bounds : pixel_offsets_spec -> bounds_ok getitem_reject = true -> Z.leb getitem_span 4 = true ->
   forall x y w h, rejects getitem_reject x y w h = false ->
     0 <= x < w /\ 0 <= y < h /\ 0 <= getitem_off x y w h /\ getitem_off x y w h + getitem_span <= 4 * w * h.
 Proof.
-  intros Hb Hs x y w h Hr. apply Z.leb_le in Hs. rewrite gen_getitem_off_spec.
+  intros [gen_getitem_off_spec _] Hb Hs x y w h Hr. apply Z.leb_le in Hs. rewrite gen_getitem_off_spec.
   destruct (accepted_in_bounds _ Hb x y w h Hr) as [A [B [C D]]]. repeat split; lia.
 Qed.
-Lemma gen_setitem_in_bounds : bounds_ok setitem_reject = true -> Z.leb setitem_span 4 = true ->
+Lemma gen_setitem_in_bounds : pixel_offsets_spec -> bounds_ok setitem_reject = true -> Z.leb setitem_span 4 = true ->
   forall x y w h, rejects setitem_reject x y w h = false ->
     0 <= x < w /\ 0 <= y < h /\ 0 <= setitem_off x y w h /\ setitem_off x y w h + setitem_span <= 4 * w * h.
 Proof.
-  intros Hb Hs x y w h Hr. apply Z.leb_le in Hs. rewrite gen_setitem_off_spec.
+  intros [_ gen_setitem_off_spec] Hb Hs x y w h Hr. apply Z.leb_le in Hs. rewrite gen_setitem_off_spec.
   destruct (accepted_in_bounds _ Hb x y w h Hr) as [A [B [C D]]]. repeat split; lia.
 Qed.
 
-Lemma gen_scale_down_block : forall w h x y, 0 < w -> 0 < h -> 0 <= x < w -> 0 <= y < h ->
+Lemma gen_scale_down_block : scale_strides_spec -> forall w h x y, 0 < w -> 0 < h -> 0 <= x < w -> 0 <= y < h ->
     let sw := 2 * w in let sh := 2 * h in
     src_offsets gen_scalecfg sw sh w h x y
     = [texel_off sw (2 * x) (2 * y); texel_off sw (2 * x + 1) (2 * y);
        texel_off sw (2 * x) (2 * y + 1); texel_off sw (2 * x + 1) (2 * y + 1)]
     /\ Forall (fun o => 0 <= o /\ o + 4 <= 4 * sw * sh) (src_offsets gen_scalecfg sw sh w h x y).
-Proof. exact (scale_down_block gen_scalecfg gen_scale_spec). Qed.
+Proof. intros [_ [_ gen_scale_spec]]. exact (scale_down_block gen_scalecfg gen_scale_spec). Qed.
 
-Lemma gen_bilinear_is_block_mean : terms_eqb bilinear_terms block_terms = true -> Z.eqb bilinear_div 4 = true ->
+Lemma gen_bilinear_is_block_mean : scale_strides_spec -> terms_eqb bilinear_terms block_terms = true -> Z.eqb bilinear_div 4 = true ->
   forall src w h x y ch, 0 < w -> 0 < h -> 0 <= x < w -> 0 <= y < h ->
     let sw := 2 * w in let sh := 2 * h in
     bilinear gen_scalecfg bilinear_terms bilinear_div src sw sh w h x y ch
     = (src (texel_off sw (2 * x) (2 * y) + ch) + src (texel_off sw (2 * x + 1) (2 * y) + ch)
        + src (texel_off sw (2 * x) (2 * y + 1) + ch) + src (texel_off sw (2 * x + 1) (2 * y + 1) + ch)) / 4.
 Proof.
-  intros Ht Hd. apply Z.eqb_eq in Hd. exact (bilinear_is_block_mean gen_scalecfg bilinear_terms bilinear_div gen_scale_spec Ht Hd).
+  intros [_ [_ gen_scale_spec]] Ht Hd. apply Z.eqb_eq in Hd. exact (bilinear_is_block_mean gen_scalecfg bilinear_terms bilinear_div gen_scale_spec Ht Hd).
 Qed.
